@@ -51,6 +51,7 @@ static void* parsec_base_future_get(parsec_base_future_t* future)
      * blocking get
      * TODO: Don't do busy wait
      * */
+    PARSEC_VERIF_WAIT_UNTIL( parsec_base_future_is_ready(future) );
     while(1){
         if(parsec_base_future_is_ready(future)){
             parsec_atomic_rmb();
